@@ -244,7 +244,10 @@ CHECKS['C02'] = dict(
          'linEval_sound_gen / rotEval_sound / hessianEval_sound, curlEval_sound, divEval_sound (div(fF) rule, div(a×b), '
          'div curl = 0), laplaceEval_sound (product rule), bracketEval_sound, mkBilin_sound (Dot/Cross/Inner/Outer/Convect: '
          'bilinear expansion, coefficients, cross(a,a) = 0) under explicit decidable typing side conditions (BilOK, LapOK, '
-         'DivOK, Scal) with non-vacuity examples; structural equality of trees is proved lawful (Lemmas/ExprEq.lean). '
+         'DivOK, Scal) with non-vacuity examples; structural equality of trees is proved lawful (Lemmas/ExprEq.lean); '
+         'Props/C02c.lean: ifaceEval_sound — jump / avg / Dn (no side condition) and minus / plus (Dn applied to leaves) '
+         'preserve the two-sided meaning (Sem/DenI.lean: independent interpretations on the two sides, jump = minus − plus, '
+         'avg = half sum, Dn = n·∇ per side) for all trees. '
          'All constructors (Dot/Cross/Inner/Outer/Convect, Grad/Curl/Rot/Div/Laplace/Hessian/Bracket, '
          'Jump/Avg/Minus/Plus/Dn) are modelled branch for branch (Model/Calc.lean) and tied to the code by a differential '
          'run on every constructor application of random programs, compared modulo ring axioms and (anti)symmetric '
@@ -269,7 +272,9 @@ CHECKS['C03'] = dict(
          'The commuting relations behind the operator-level rules are proved as polynomial identities modulo det·δ = 1: '
          'div((J/det)û) = (1/det) div̂ û in 1-D, 2-D, 3-D, curl(J⁻ᵀû) = (1/det) curl̂ û in 2-D and = (J/det) curl̂ û in 3-D, '
          'grad u = J⁻ᵀ ∇̂û (div_rule_sound1/2/3, curl_rule_sound2, curl_rule_sound3_0/1/2, grad_rule_sound) for every Jacobian with '
-         'symmetric derivatives. Tie: random terminal and generic expressions over symbolic, user-defined polynomial '
+         'symmetric derivatives; non-vacuity: Props/C03Inst.lean constructs the two differential rings for the affine mapping '
+         '(2x̂₁+x̂₂, x̂₂) over polynomials with complex coefficients, proves MapRel and instantiates logical_sound on concrete '
+         'expressions (second derivative, L2, Hdiv, Hcurl). Tie: random terminal and generic expressions over symbolic, user-defined polynomial '
          '(orientation preserving and reversing, with symbolic parameters) and catalogue mappings (identity, affine, polar, '
          'target, Czarny, torus, spherical, twisted target; Collela by the oracle only), every space kind, dims 1-3, both '
          'routes named in the property (TerminalExpr∘LogicalExpr and LogicalExpr∘TerminalExpr) compared with the model as '
